@@ -4,7 +4,6 @@ import (
 	"fmt"
 	"go/token"
 	"go/types"
-	"strings"
 
 	"golang.org/x/tools/go/ssa"
 )
@@ -116,21 +115,31 @@ func (c *Ctx) pfbReadRules() {
 	c.check(nRead == 2, "PFB-READERR", fname, "one read per data state", fn.Pos(), fmt.Sprint(nRead), fmt.Sprintf("expected one read in the text state and one in the binary state, found %d", nRead))
 
 	// the leftover state: the pending digit goes to the first free byte, nothing is read
+	// (the leftover states are the states an odd caller buffer leaves a binary segment in, with
+	// and without data left in the segment — ext_g_pfb.go)
 	{
-		it := c.pfbIteration(fn, H, -1, nil, 2)
-		plain, full, _ := reads(it)
-		emitted := false
-		for _, ef := range it.effects {
-			if ef.what == "store" && ef.addr == "b[0]" && ef.args[0].String() == "tail" {
-				emitted = true
+		roles := c.pfbRoles(fn, H)
+		okAll, why := len(roles.pend) > 0, "no state in which a digit is pending was found: the binary state does not park the last digit of an odd caller buffer"
+		for _, ps := range roles.pend {
+			it := c.pfbIterationOpt(fn, H, 0, nil, 2, pfbOpt{hdrK: -1, ctl: ps})
+			plain, full, _ := reads(it)
+			emitted := false
+			for _, ef := range it.effects {
+				if ef.what == "store" && ef.addr == "b[0]" && ef.args[0].String() == "tail" {
+					emitted = true
+				}
+			}
+			if plain+full == 0 && emitted {
+				continue
+			}
+			okAll = false
+			why = "the leftover-nibble state " + ps.String() + " reads input before emitting the pending digit"
+			if plain+full == 0 {
+				why = "the leftover-nibble state " + ps.String() + " does not put the pending digit into the first free byte of the caller's buffer " + it.why
 			}
 		}
 		_ = tailF
-		why := "the leftover-nibble state reads input before emitting the pending digit"
-		if plain+full == 0 {
-			why = "the leftover-nibble state does not put the pending digit into the first free byte of the caller's buffer " + it.why
-		}
-		c.check(plain+full == 0 && emitted, "PFB-LEFTOVER", fname, "the pending nibble is emitted before any new input is read", fn.Pos(), "no read in the leftover state", why)
+		c.check(okAll, "PFB-LEFTOVER", fname, "the pending nibble is emitted before any new input is read", fn.Pos(), "no read in the leftover state", why)
 	}
 
 	// the header read: every short read is an error, except the two-byte end marker
@@ -155,13 +164,9 @@ func (c *Ctx) pfbReadRules() {
 			desc := fmt.Sprintf("a header read of %d byte(s) (% x) failing with %s", cl.k, []byte{byte(cl.b0), byte(cl.b1)}[:min(cl.k, 2)], cl.err)
 			switch {
 			case tolerated:
-				st := sv{}
-				for _, ef := range it.effects {
-					if ef.what == "store" && strings.HasSuffix(ef.addr, "."+c.fld("pfb.state")) {
-						st = ef.args[0]
-					}
-				}
-				if !it.back || st.k != svInt || st.i != 3 {
+				roles := c.pfbRoles(fn, H)
+				st, okSt := pfbApply(roles.hdr, it.effects)
+				if !it.back || !okSt || roles.seg[3] == nil || st.String() != roles.seg[3].String() {
 					bad = append(bad, desc+" is the end marker, but the decoder does not go to its final state ("+fmt.Sprint(it.ret)+" "+it.why+")")
 				}
 			default:
